@@ -440,6 +440,76 @@ func runOpCrash(c *core.Ctx, ctx context.Context, f0 *fixture, oc opCase, k int,
 	}
 }
 
+// crashAt runs oc on st with a fail-stop at storage call k and returns the call that was cut.
+func crashAt(ctx context.Context, st backend, f0 *fixture, oc opCase, k int) (string, error) {
+	cs := &crashStore{}
+	lk, err := st.Open(ctx, 1, cs.hook)
+	if err != nil {
+		return "", err
+	}
+	lk.API.CommitObject(ctx, f0.p, "main")
+	lk.API.CommitObject(ctx, f0.q, "main")
+	cs.mu.Lock()
+	cs.calls, cs.at, cs.log = 0, k, nil
+	cs.mu.Unlock()
+	f0.cur, f0.curHook = st, cs.hook
+	func() {
+		defer func() { recover() }()
+		oc.run(ctx, lk, f0)
+	}()
+	if !cs.dead {
+		return "none", nil
+	}
+	return cs.atCall.Kind + "@" + pathClass(cs.atCall.Path), nil
+}
+
+type b2Witness struct {
+	Op      string `json:"op"`
+	K       int    `json:"k"`
+	K2      int    `json:"k2"`
+	Call    string `json:"call"`
+	Backend string `json:"backend"`
+}
+
+// runOpDoubleCrash: crash at call k1, restart, crash the same operation again at every call k2,
+// restart: the lake must be readable and usable.
+func runOpDoubleCrash(c *core.Ctx, ctx context.Context, f0 *fixture, oc opCase, k1, n int) {
+	st1, err := f0.store.Clone()
+	if err != nil {
+		c.Inconclusive("clone: %v", err)
+		return
+	}
+	defer st1.Drop()
+	call1, err := crashAt(ctx, st1, f0, oc, k1)
+	if err != nil {
+		c.Inconclusive("open for %s: %v", oc.name, err)
+		return
+	}
+	for k2 := 1; k2 <= n+2; k2++ {
+		st2, err := st1.Clone()
+		if err != nil {
+			c.Inconclusive("clone: %v", err)
+			return
+		}
+		call2, err := crashAt(ctx, st2, f0, oc, k2)
+		if err != nil {
+			c.Violate(fmt.Sprintf("usable2:%s:%s", oc.name, call1), fmt.Sprintf("after a crash at storage call %d (%s) of %s the lake cannot be opened: %v", k1, call1, oc.name, err), b2Witness{Op: oc.name, K: k1, K2: k2, Call: call1, Backend: st1.Kind()})
+			st2.Drop()
+			return
+		}
+		c.Eval(fmt.Sprintf("%s|%d+%d|%v", oc.name, k1, k2, st2.Kind()), true)
+		w := b2Witness{Op: oc.name, K: k1, K2: k2, Call: call1 + "+" + call2, Backend: st2.Kind()}
+		_, errs := observe(ctx, st2)
+		for _, e := range errs {
+			c.Violate(fmt.Sprintf("readable2:%s:%s+%s", oc.name, call1, call2), fmt.Sprintf("after crashes at storage call %d (%s) of %s and, after a restart, at call %d (%s) of the same operation: %s", k1, call1, oc.name, k2, call2, e), w)
+		}
+		for _, e := range usable(ctx, st2, f0, &oc) {
+			c.Violate(fmt.Sprintf("usable2:%s:%s+%s", oc.name, call1, call2), fmt.Sprintf("after crashes at storage call %d (%s) of %s and, after a restart, at call %d (%s) of the same operation: %s", k1, call1, oc.name, k2, call2, e), w)
+		}
+		st2.Drop()
+	}
+}
+
 func partB(c *core.Ctx, ctx context.Context, kind string, only string, onlyK int) error {
 	f0, err := buildFixture(ctx, kind, c.Scratch)
 	if err != nil {
@@ -490,6 +560,20 @@ func partB(c *core.Ctx, ctx context.Context, kind string, only string, onlyK int
 			}
 			runOpCrash(c, ctx, f0, oc, k, pre, post)
 		}
+		// Two crashes in a row (quick: load and createpool on the in-memory engine; thorough: every
+		// operation): the first after the operation's journal entry exists, the second at every call
+		// of the same operation run again by the restarted process.  HEAD may then lag by two entries.
+		if kind == "mem" && (oc.name == "load" || oc.name == "createpool" || !c.Quick()) {
+			first := 0
+			for i, o := range cs.log {
+				if o.Kind == "PutIfNotExists" && first == 0 {
+					first = i + 1
+				}
+			}
+			for k1 := first + 1; first > 0 && k1 <= n && onlyK == 0; k1++ {
+				runOpDoubleCrash(c, ctx, f0, oc, k1, n)
+			}
+		}
 		if oc.name == "load" {
 			var calls []string
 			for _, o := range cs.log {
@@ -539,6 +623,7 @@ func run(c *core.Ctx) error {
 	if c.Replay != "" {
 		var w struct {
 			bWitness
+			K2       int              `json:"k2"`
 			Scenario *lakeh.JScenario `json:"scenario"`
 			Sched    []lakeh.GateStep `json:"sched"`
 		}
@@ -550,6 +635,19 @@ func run(c *core.Ctx) error {
 		}
 		if w.Op == "init" {
 			partInit(c, ctx)
+			return nil
+		}
+		if w.K2 > 0 {
+			f0, err := buildFixture(ctx, w.Backend, c.Scratch)
+			if err != nil {
+				return err
+			}
+			defer f0.store.Drop()
+			for _, oc := range opCases() {
+				if oc.name == w.Op {
+					runOpDoubleCrash(c, ctx, f0, oc, w.K, 40)
+				}
+			}
 			return nil
 		}
 		return partB(c, ctx, w.Backend, w.Op, w.K)
